@@ -791,6 +791,9 @@ func NewPrinter() *Printer {
 	return &Printer{defined: make(map[int]string), stack: [][]int{nil}}
 }
 
+// Has reports whether t has been emitted (declared/defined) in a live scope.
+func (p *Printer) Has(t *Term) bool { _, ok := p.defined[t.ID]; return ok }
+
 func (p *Printer) Push() { p.stack = append(p.stack, nil) }
 func (p *Printer) Pop() {
 	top := p.stack[len(p.stack)-1]
